@@ -1,22 +1,75 @@
-"""C07 (work in progress)"""
+"""C07 - the RunEngine lifecycle never takes an illegal transition or gets stuck.
+
+Carriers (real code, executed symbolically on every run): RunEngine.__init__/__call__/_resume_task/resume/_run/_rewind, request_pause +
+_request_pause_coro, request_suspend + _request_suspend + _start_suspender + _resume, abort/stop/halt + their coroutines +
+__interrupter_helper, the message handlers of the scenario's alphabet, LoggingPropertyMachine.__set__ with the transition table
+read from RunEngineStateMachine.Meta on every run.
+
+Clauses, from the statement:
+  L1  once a blocking call (RE(...), resume, abort, stop, halt made while paused) has returned or raised, the state is 'idle' or 'paused'
+  L2  _run itself never attempts a transition the table refuses (requests *may* be refused: their TransitionError goes to the requester)
+  L3  a blocking call is never left waiting with nothing that could wake it (the engine does not get stuck in a transient state)
+Every state change goes through the real property machine, so 'only along the declared table' is enforced by construction of the
+model (an undeclared move raises TransitionError exactly as the vendored machine does); L2 says the engine's own code never
+relies on such a move.
+
+Proof shape: closure over canonical configurations (see contracts/aio.py): an *arbitrary* plan over the scenario's alphabet
+(any length, any order, returning / raising / handling thrown exceptions arbitrarily), arbitrary custom-command outcomes, and
+an environment that may make any request of the scenario's menu before every step of the event loop, plus every post-pause
+decision.  Unbounded in plan length and in the number of requests; bounded by the stated scenario parameters."""
 import os
-from .lib import *
-from .run_lib import *
-from .run_scn import *
-from .run_mon import *
+
+from .t2 import *
 
 PROP = "C07"
-TRUSTED = TRUSTED_T2
+TRUSTED = TRUSTED_T2 + [
+    "A-ENV: at most one request of another thread is in flight (queued but not yet run by the loop) at a time; no new pause / suspension is "
+    "requested while two or more plans are already stacked (user plan + one rewind / suspender helper plan)",
+    "scenario alphabets are finite: custom (a registered command that returns or raises), custom_async (awaits a device future), checkpoint, "
+    "clear_checkpoint, pause messages; other message handlers are covered by the properties that own them",
+]
+NOT_DECIDED = ("real preemptive threads (a caller racing the loop thread inside __call__ / __interrupter_helper beyond the sampled 'was_paused'), "
+               "SIGINT handling, user callbacks re-entering the RunEngine, and 'panicked' (only reachable through a callback that raises inside emit)")
+
+THOROUGH = os.environ.get("VERIF_TIER") == "thorough"
+
+ENV_KINDS = ["pause", "pause_defer", "suspend", "abort", "stop", "halt"]
+SCENARIOS = []
+# every single request kind and every pair of kinds, at every step of the loop, against an arbitrary plan of custom commands and checkpoints
+for i, a in enumerate(ENV_KINDS):
+    SCENARIOS.append(("custom,checkpoint", a, {} if THOROUGH else {}))
+    for b in ENV_KINDS[i + 1:]:
+        # the statement's scope is "sequences of up to two requests": the quick tier bounds the costly pairs (those with a pause, whose
+        # resume cycles multiply the configurations) by that; the thorough tier leaves the number of requests unbounded
+        heavy = bool({a, b} & {"pause", "pause_defer"})
+        SCENARIOS.append(("custom,checkpoint", f"{a},{b}", {} if (THOROUGH or not heavy) else {"max_requests": 2}))
+# requests landing while a command is suspended on a device, and in non-resumable sections
+SCENARIOS += [
+    ("custom_async,checkpoint", "pause", {}),
+    ("custom_async", "suspend", {}),
+    ("custom_async", "abort", {}),
+    ("custom,clear_checkpoint,checkpoint", "pause", {}),
+    ("custom,clear_checkpoint", "suspend", {}),
+    ("custom,pause,checkpoint", "abort", {}),
+]
+if THOROUGH:
+    SCENARIOS += [
+        ("custom_async,checkpoint", "pause,abort", {}),
+        ("custom_async,checkpoint", "suspend,stop", {}),
+        ("custom,clear_checkpoint,checkpoint", "pause,suspend", {"max_requests": 3}),
+        ("custom,pause_defer,checkpoint", "halt", {}),
+    ]
+
+L1 = f"{REQ}#lifecycle[after a blocking call returns or raises the engine is idle or paused]"
+t2_tasks(PROP, "lifecycle", SCENARIOS, [c07_checks], expect=[L1])
 
 
-@task("lifecycle", PROP, functions=[f"{RE}._run"], expect=[], timeout_s=3600, path_cap=400000)
-def lifecycle(I):
-    w = I.w
-    msgs = os.environ.get("T2_MSGS", "custom,checkpoint").split(",")
-    env = [e for e in os.environ.get("T2_ENV", "pause").split(",") if e]
-    sc = Scenario(I, msgs, env=env)
-    tr = Tracker(sc)
-    c07_checks(sc, tr)
-    c08_checks(sc, tr)
-    c02_checks(sc, tr)
-    sc.run()
+# must-fail twin: 'paused' is a legitimate resting state, so demanding idle after every call must be refuted
+def _twin_check(sc, tr):
+    def check(kind, *a):
+        if kind == "returned":
+            sc.w.check("twin:after every blocking call the engine is idle", sc.eng.state == "idle")
+    tr.checks.append(check)
+
+
+t2_tasks(PROP, "twin", [("custom,checkpoint", "pause", {})], [_twin_check], twin="twin:after every blocking call the engine is idle")
